@@ -148,6 +148,161 @@ Example C10_ex_product :
   In (1, 4) (reads_product [(1, true); (2, false)] 5) /\ product_shifts [(1, true); (2, false)] = [2; 1].
 Proof. vm_compute. intuition. Qed.
 
+(* ------------------------------------------------------------------------
+   NON-VACUITY (audit): every theorem of this file APPLIED to a concrete rule with three children
+   (an atom of size 1, a class of minimum size 0, a class of minimum size 2), so that Coq checks
+   that the facts discharged are the theorems' own hypotheses; plus computed instances showing that
+   the bounds concluded are attained (the conclusions are not slack) and discriminate. *)
+Definition c3 : desc := [(1, true); (0, false); (2, false)].
+
+(* covers C10_compositions_sound: first component applied to a yielded tuple, second as it is;
+   also on bounds with a NEGATIVE minimum ("no assumption on signs") *)
+Example C10_compositions_sound_nonvacuous :
+  (zlen [2; 0; 3] = 3 /\ py_sum [2; 0; 3] = 5 /\ Forall2 Z.le [1; 0; 1] [2; 0; 3] /\
+   Forall2 bounded [2; 0; 3] [None; Some 1; None]) /\
+  NoDup (compositions 5 3 [1; 0; 1] [None; Some 1; None]) /\
+  (zlen [-1; 3] = 2 /\ py_sum [-1; 3] = 2 /\ Forall2 Z.le [-1; 0] [-1; 3] /\
+   Forall2 bounded [-1; 3] [None; None]).
+Proof.
+  split; [|split].
+  - apply (proj1 (C10_compositions_sound 5 3 [1; 0; 1] [None; Some 1; None] eq_refl eq_refl) [2; 0; 3]).
+    vm_compute. intuition.
+  - exact (proj2 (C10_compositions_sound 5 3 [1; 0; 1] [None; Some 1; None] eq_refl eq_refl)).
+  - apply (proj1 (C10_compositions_sound 2 2 [-1; 0] [None; None] eq_refl eq_refl) [-1; 3]).
+    vm_compute. intuition.
+Qed.
+
+(* covers C10_compositions_spec: right-to-left (a composition within the bounds IS yielded) and
+   left-to-right on a near miss ([2;2;1] breaks the atom bound Some 1, so it is NOT yielded) *)
+Lemma c10_spec_hyps : 1 <= 3 /\ zlen [1; 0; 1] = 3 /\ zlen [None; Some 1; None] = 3 /\
+                      Forall (fun m => 0 <= m) [1; 0; 1].
+Proof. repeat split; try reflexivity; try lia. repeat constructor; lia. Qed.
+Example C10_compositions_spec_nonvacuous :
+  In [2; 1; 2] (compositions 5 3 [1; 0; 1] [None; Some 1; None]) /\
+  ~ In [2; 2; 1] (compositions 5 3 [1; 0; 1] [None; Some 1; None]).
+Proof.
+  destruct c10_spec_hyps as (H1 & H2 & H3 & H4).
+  destruct (C10_compositions_spec 5 3 [1; 0; 1] [None; Some 1; None] H1 H2 H3 H4) as [Hiff _].
+  split.
+  - apply (proj2 (Hiff [2; 1; 2])). split; [reflexivity|]. split; [reflexivity|].
+    split; repeat constructor; simpl; lia.
+  - intros Hin. apply (proj1 (Hiff [2; 2; 1])) in Hin. destruct Hin as (_ & _ & _ & Hb).
+    inversion Hb as [|? ? ? ? _ Hb']; subst. inversion Hb' as [|? ? ? ? Hbad _]; subst.
+    simpl in Hbad. lia.
+Qed.
+
+(* covers C10_compositions_no_parts (k = 0 with n = 0, and k < 0); the conclusion discriminates:
+   with one part the empty composition problem has an answer *)
+Example C10_compositions_no_parts_nonvacuous :
+  compositions 0 0 [] [] = [] /\ compositions 3 (-1) [1; 2] [None; None] = [] /\
+  compositions 0 1 [0] [None] = [[0]].
+Proof.
+  split; [apply (C10_compositions_no_parts 0 0 [] []); lia|].
+  split; [apply (C10_compositions_no_parts 3 (-1) [1; 2] [None; None]); lia|].
+  vm_compute. reflexivity.
+Qed.
+
+(* covers C10_product: child 2 (shift 1) is read at size 5 = 6 - 1: the bound is attained *)
+Example C10_product_nonvacuous :
+  0 <= 2 < zlen c3 /\ 5 <= 6 - nth (Z.to_nat 2) (product_shifts c3) 0.
+Proof. apply (C10_product c3 6 2 5). vm_compute. intuition. Qed.
+Example C10_product_tight :
+  product_shifts c3 = [2; 3; 1] /\ In (2, 5) (reads_product c3 6) /\ ~ In (2, 6) (reads_product c3 6) /\
+  In (1, 3) (reads_product c3 6) /\ ~ In (1, 4) (reads_product c3 6).
+Proof.
+  split; [reflexivity|]. split; [vm_compute; intuition|]. split; [vm_compute; intuition congruence|].
+  split; [vm_compute; intuition|vm_compute; intuition congruence].
+Qed.
+
+(* covers C10_union_complement (all four components, on the three-child rule, reverse w.r.t. child 1) *)
+Example C10_union_complement_nonvacuous :
+  (forall i m, In (i, m) (reads_union c3 4) -> 0 <= i < zlen c3 /\ m = 4) /\
+  (forall i m, In (i, m) (reads_complement c3 1 4) -> (i = 0 \/ 1 <= i < zlen c3) /\ m = 4) /\
+  Forall (fun s => s = 0) (union_shifts c3) /\
+  Forall (fun s => s = 0) (reverse_shifts (union_shifts c3) 1) /\
+  reads_union c3 4 = [(0, 4); (1, 4); (2, 4)] /\ reads_complement c3 1 4 = [(0, 4); (1, 4); (2, 4)] /\
+  reverse_shifts (union_shifts c3) 1 = [0; 0; 0].
+Proof.
+  split; [intros i m; exact (proj1 (C10_union_complement c3 1 4 i m))|].
+  split; [intros i m; exact (proj1 (proj2 (C10_union_complement c3 1 4 i m)))|].
+  split; [exact (proj1 (proj2 (proj2 (C10_union_complement c3 1 4 0 0))))|].
+  split; [exact (proj2 (proj2 (proj2 (C10_union_complement c3 1 4 0 0))))|].
+  repeat split; reflexivity.
+Qed.
+
+(* covers C10_quotient: the reverse of the product w.r.t. child 1 at n = 4 reads its own terms at
+   size 3 (< 4), the original parent exactly at 4 - (-3) = 7 and sibling 2 up to 4 - (-2) = 6 *)
+Lemma c3_idx1 : 0 <= 1 < zlen c3. Proof. vm_compute. split; [discriminate|reflexivity]. Qed.
+Example C10_quotient_nonvacuous :
+  (py_get 0 (quotient_min_sizes c3) 1 <= 4 /\
+   ((SELF = SELF /\ 3 < 4) \/
+    (SELF = 0 /\ 3 = 4 - nth 0 (reverse_shifts (product_shifts c3) 1) 0) \/
+    (1 <= SELF < zlen c3 /\ 3 <= 4 - nth (Z.to_nat SELF) (reverse_shifts (product_shifts c3) 1) 0))) /\
+  (py_get 0 (quotient_min_sizes c3) 1 <= 4 /\
+   ((0 = SELF /\ 7 < 4) \/
+    (0 = 0 /\ 7 = 4 - nth 0 (reverse_shifts (product_shifts c3) 1) 0) \/
+    (1 <= 0 < zlen c3 /\ 7 <= 4 - nth (Z.to_nat 0) (reverse_shifts (product_shifts c3) 1) 0))) /\
+  (py_get 0 (quotient_min_sizes c3) 1 <= 4 /\
+   ((2 = SELF /\ 6 < 4) \/
+    (2 = 0 /\ 6 = 4 - nth 0 (reverse_shifts (product_shifts c3) 1) 0) \/
+    (1 <= 2 < zlen c3 /\ 6 <= 4 - nth (Z.to_nat 2) (reverse_shifts (product_shifts c3) 1) 0))).
+Proof.
+  split; [|split].
+  - apply (C10_quotient c3 1 4 SELF 3 c3_idx1). vm_compute. intuition.
+  - apply (C10_quotient c3 1 4 0 7 c3_idx1). vm_compute. intuition.
+  - apply (C10_quotient c3 1 4 2 6 c3_idx1). vm_compute. intuition.
+Qed.
+(* which branch is taken, and that the bounds are attained and not exceeded *)
+Example C10_quotient_tight :
+  reverse_shifts (product_shifts c3) 1 = [-3; -1; -2] /\
+  In (SELF, 3) (reads_quotient c3 1 4) /\ ~ In (SELF, 4) (reads_quotient c3 1 4) /\
+  In (0, 7) (reads_quotient c3 1 4) /\
+  In (2, 6) (reads_quotient c3 1 4) /\ ~ In (2, 7) (reads_quotient c3 1 4).
+Proof.
+  split; [reflexivity|].
+  split; [vm_compute; intuition|]. split; [vm_compute; intuition congruence|].
+  split; [vm_compute; intuition|]. split; [vm_compute; intuition|vm_compute; intuition congruence].
+Qed.
+
+(* covers C10_quotient_nothing_below_min: reverse w.r.t. child 2 (minimum size 2) at n = 1; at
+   n = 2 the same rule does read *)
+Example C10_quotient_nothing_below_min_nonvacuous :
+  reads_quotient c3 2 1 = [] /\ reads_quotient c3 2 2 = [(0, 3); (1, 1); (2, 0)].
+Proof.
+  split; [apply (C10_quotient_nothing_below_min c3 2 1); vm_compute; reflexivity|].
+  vm_compute. reflexivity.
+Qed.
+
+(* covers C10_reads_respect_declared_shifts, once per rule form *)
+Example C10_reads_respect_declared_shifts_nonvacuous :
+  ((1 = SELF /\ 4 < 4) \/ (0 <= 1 < zlen c3 /\ 4 <= 4 - nth (Z.to_nat 1) (rule_shifts 0 c3 0) 0)) /\
+  ((2 = SELF /\ 5 < 6) \/ (0 <= 2 < zlen c3 /\ 5 <= 6 - nth (Z.to_nat 2) (rule_shifts 1 c3 0) 0)) /\
+  ((2 = SELF /\ 4 < 4) \/ (0 <= 2 < zlen c3 /\ 4 <= 4 - nth (Z.to_nat 2) (rule_shifts 2 c3 1) 0)) /\
+  ((SELF = SELF /\ 3 < 4) \/
+   (0 <= SELF < zlen c3 /\ 3 <= 4 - nth (Z.to_nat SELF) (rule_shifts 3 c3 1) 0)) /\
+  ((2 = SELF /\ 6 < 4) \/ (0 <= 2 < zlen c3 /\ 6 <= 4 - nth (Z.to_nat 2) (rule_shifts 3 c3 1) 0)).
+Proof.
+  split; [|split; [|split; [|split]]].
+  - apply (C10_reads_respect_declared_shifts 0 c3 0 4 1 4); [lia|intros; lia|vm_compute; intuition].
+  - apply (C10_reads_respect_declared_shifts 1 c3 0 6 2 5); [lia|intros; lia|vm_compute; intuition].
+  - apply (C10_reads_respect_declared_shifts 2 c3 1 4 2 4); [lia|intros; exact c3_idx1|vm_compute; intuition].
+  - apply (C10_reads_respect_declared_shifts 3 c3 1 4 SELF 3); [lia|intros; exact c3_idx1|vm_compute; intuition].
+  - apply (C10_reads_respect_declared_shifts 3 c3 1 4 2 6); [lia|intros; exact c3_idx1|vm_compute; intuition].
+Qed.
+
+(* covers C10_one_shift_per_child, once per rule form; the tuples themselves *)
+Example C10_one_shift_per_child_nonvacuous :
+  zlen (rule_shifts 0 c3 0) = zlen c3 /\ zlen (rule_shifts 1 c3 0) = zlen c3 /\
+  zlen (rule_shifts 2 c3 1) = zlen c3 /\ zlen (rule_shifts 3 c3 1) = zlen c3 /\
+  rule_shifts 1 c3 0 = [2; 3; 1] /\ rule_shifts 3 c3 1 = [-3; -1; -2].
+Proof.
+  split; [apply (C10_one_shift_per_child 0 c3 0); [lia|intros; lia]|].
+  split; [apply (C10_one_shift_per_child 1 c3 0); [lia|intros; lia]|].
+  split; [apply (C10_one_shift_per_child 2 c3 1); [lia|intros; exact c3_idx1]|].
+  split; [apply (C10_one_shift_per_child 3 c3 1); [lia|intros; exact c3_idx1]|].
+  split; reflexivity.
+Qed.
+
 Print Assumptions C10_compositions_sound.
 Print Assumptions C10_compositions_spec.
 Print Assumptions C10_compositions_no_parts.
